@@ -251,6 +251,8 @@ pub fn drive(args: &Args) -> i32 {
     for run in 0..n {
         let lay = format!("random:{}", rng.gen::<u32>());
         let size = [0usize, 1, 63, 64, 65, 4087, 4088, 4089, 5000, 70000][rng.gen_range(0..10)] + rng.gen_range(0..3);
+        // now and then a package large enough for 109+ FAT sectors (header DIFAT full, DIFAT sectors in use)
+        let size = if run % 40 == 7 { [7_000_000usize, 7_300_000, 14_000_000][(run / 40) as usize % 3] } else { size };
         let info = ["standard", "agile"][rng.gen_range(0..2)];
         let content = ["xls", "vba"][rng.gen_range(0..2)];
         let fp = ["none", "xor", "xor5", "rc4", "cryptoapi"][rng.gen_range(0..5)];
